@@ -10,7 +10,7 @@ import (
 	"verif/vkit"
 )
 
-const ruleRT = "1-10 messages built by the five change constructors and three control constructors with every subset of {WithTxID, WithTimestamp, WithAutoTimestamp, WithEntityType}, entities with nested structs, maps, nil and empty slices, pointer fields, unicode/escaped strings, extreme ints and finite floats, keys any non-empty valid-UTF-8 string; published through a bus on the memory / SQLite / durable-streams store and replayed into a strict materializer. Oracle: constructor output fields as given; every stored document uses only the protocol's field names and the fixed event type names; each materialized entity is JSON-equal to the original, deletes/resets respected, control callbacks as sent. Non-trivial = >=2 options, a pointer field, or non-ASCII key/name."
+const ruleRT = "1-14 messages (a quarter of the entities padded to 1.5-20 KB around buffer-size boundaries; half of the cases build the whole batch before publishing it) built by the five change constructors and three control constructors with every subset of {WithTxID, WithTimestamp, WithAutoTimestamp, WithEntityType}, entities with nested structs, maps, nil and empty slices, pointer fields, unicode/escaped strings, extreme ints and finite floats, keys any non-empty valid-UTF-8 string; published through a bus on the memory / SQLite / durable-streams store and replayed into a strict materializer. Oracle: constructor output fields as given; every stored document uses only the protocol's field names and the fixed event type names; each materialized entity is JSON-equal to the original, deletes/resets respected, control callbacks as sent. Non-trivial = >=2 options, a pointer field, or non-ASCII key/name."
 const ruleHostile = "arbitrary bytes, special documents (deep nesting, hybrid control+change headers, wrong JSON types) and structure-aware mutations of valid messages presented to Apply on a pre-populated materializer (strict and not, with every combination of the OnError, OnReset and OnSnapshot options). Oracle: no panic; an error leaves every collection and LastOffset unchanged; nil advances LastOffset. Non-trivial = valid JSON that is rejected."
 
 var collMem = vkit.NewCollector("C19", "TestRoundTripMemory", ruleRT)
